@@ -46,21 +46,104 @@ def _skip(ck, r, oid):
     return False
 
 
-def expected_multiplicity(d, key):
-    """C09/C23: a printed sequence may occur once per choice of copy of a weighted level of a non-derived factor that is
-    not in every crossing (Level documentation)."""
+def _weighted_split(d):
+    """weighted non-derived factors of the design -> (in no crossing, in some but not every crossing)"""
     fm = model.factor_map(d)
     g = model.geometry(d)
-    crossed_everywhere = set.intersection(*[set(c["factors"]) for c in g["crossings"]]) if g["crossings"] else set()
-    mult = 1
-    for f, vals in key:
-        F = fm[f]
-        if model.is_derived(F) or f in crossed_everywhere:
+    cs = [set(c["factors"]) for c in g["crossings"]]
+    free, partly = [], []
+    for F in d["factors"]:
+        if model.is_derived(F) or not any(w > 1 for _, w in F["levels"]):
             continue
-        w = dict(map(tuple, F["levels"]))
-        for v in vals:
-            mult *= w.get(v, 1)
-    return mult
+        n_in = sum(F["name"] in c for c in cs)
+        if n_in == 0:
+            free.append(F["name"])
+        elif n_in < len(cs):
+            partly.append(F["name"])
+    return fm, free, partly
+
+
+_PTWIN = {}
+
+
+def _partial_twin(d, partly):
+    k = (d["name"], tuple(partly))
+    if k not in _PTWIN:
+        if len(_PTWIN) > 64:
+            _PTWIN.clear()
+        t, back = expand_weights(d, only=set(partly))
+        _PTWIN[k] = (t, back, model.geometry(t))
+    return _PTWIN[k]
+
+
+def expected_multiplicity(d, key, max_assignments=4096):
+    """How often may one printed sequence be returned as distinct solutions?  -> (m_code, m_doc)
+
+    * A weighted level of a non-derived factor that is in NO crossing: every choice of copy is a distinct solution (Level
+      documentation, what the library does): the product of the weights over the trials, in both components.
+    * A weighted non-derived factor that is in every crossing: one solution, in both components.
+    * A weighted non-derived factor in some but not every crossing (Merge / MultiCrossBlock / Nest): the first paragraph of the
+      Level documentation ("as long as the level's factor is part of a block's crossing ... not considered distinct") gives
+      m_code, its second paragraph ("more generally, is not in all crossings ... copies are treated as distinct") gives m_doc =
+      the number of valid sequences of the twin design with separately named copies that print as `key` (counted by the
+      reference reading on the twin; None if that cannot be decided).  C02/C05/C06/C09 say nothing about which it is, so a
+      design is accepted under either reading applied to all its sequences; the discrepancy itself is C23's subject."""
+    fm, free, partly = _weighted_split(d)
+    base = 1
+    for f, vals in key:
+        if f in free:
+            w = dict(map(tuple, fm[f]["levels"]))
+            for v in vals:
+                base *= w.get(v, 1)
+    if not partly:
+        return base, base
+    import itertools
+    twin, back, geo = _partial_twin(d, partly)
+    fwd = {}
+    for (f, copy), l in back.items():
+        fwd.setdefault((f, l), []).append(copy)
+    seq = {f: list(vals) for f, vals in key}
+    slots = [(f, t, fwd[(f, v)]) for f in partly for t, v in enumerate(seq[f]) if (f, v) in fwd]
+    n_asg = 1
+    for _, _, ch in slots:
+        n_asg *= len(ch)
+    if n_asg > max_assignments:
+        return base, None
+    cnt = 0
+    for choice in itertools.product(*[ch for _, _, ch in slots]):
+        s2 = {f: list(v) for f, v in seq.items()}
+        for (f, t, _), c in zip(slots, choice):
+            s2[f][t] = c
+        try:
+            verdict = model.classify(twin, s2, geo)
+        except model.Unsupported:
+            return base, None
+        if verdict == model.AMBIG:
+            return base, None
+        cnt += verdict == model.VALID
+    return base, base * cnt
+
+
+def multiplicity_mismatch(d, counts, valid):
+    """first (key, returned, expected) among the definitely valid printed sequences whose number of occurrences fits neither
+    reading of expected_multiplicity applied uniformly to the design; None if one reading fits (or cannot be decided)"""
+    bad = [None, None]
+    undecidable = False
+    for k, n in counts.items():
+        if k not in valid:
+            continue
+        try:
+            want = expected_multiplicity(d, k)
+        except model.Unsupported:
+            return None
+        for i in (0, 1):
+            if want[i] is None:
+                undecidable = True
+            elif bad[i] is None and n != want[i]:
+                bad[i] = (dict(k), n, want[i] if want[0] == want[1] else f"{want[0]} (copies of a partly crossed factor not distinct) or {want[1]} (distinct)")
+    if bad[0] is None or bad[1] is None or undecidable:
+        return None
+    return bad[0]
 
 
 # =========================================================================================== C01
@@ -151,17 +234,8 @@ def c02(tier):
                 continue
             ks = set(keys)
             missing, extra = lo - ks, ks - up
-            dup = None
             from collections import Counter
-            cnt = Counter(keys)
-            for k, n in cnt.items():
-                try:
-                    want = expected_multiplicity(d, k)
-                except Exception:
-                    want = None
-                if want is not None and n != want and k in lo:
-                    dup = (k, n, want)
-                    break
+            dup = multiplicity_mismatch(d, Counter(keys), lo)
             ok = not missing and not extra and dup is None
             tier_ = "S" if src == "cnf" else "E"
             ck.oblig(f"C02.{src}.exact({r['name']})", tier_, ("proved" if tier_ == "S" else "passed") if ok else ("refuted" if tier_ == "S" else "failed"),
@@ -327,9 +401,30 @@ def replay(payload):
         ks = set(map(_t, v.get("keys", [])))
         if lo - ks or ks - up:
             return True
+        from collections import Counter
+        if s != "cnf" or True:
+            if multiplicity_mismatch(d, Counter(map(_t, v.get("keys", []))), lo):
+                return True
     if v.get("n_non_unique"):
         return True
     return False
+
+
+def replay_pair(payload):
+    """C23/C24 pair files: run both sides again (IterateSATGen and RandomGen); True iff the printed (multi)sets still differ"""
+    from collections import Counter
+    back = {(f, c): l for f, c, l in payload.get("rename_back", [])}
+    r = _twin_eval((payload["left"], payload["right"], back))
+    still = False
+    for strat in ("IterateSATGen", "RandomGen"):
+        a, b = r.get(f"weighted:{strat}", {}), r.get(f"twin:{strat}", {})
+        print(strat, {k: v for k, v in a.items() if k != "keys"}, {k: v for k, v in b.items() if k != "keys"})
+        if "exception" in a or "exception" in b:
+            still = still or ("exception" in a) != ("exception" in b)
+            continue
+        ka, kb = Counter(map(_t, a["keys"])), Counter(map(_t, b["keys"]))
+        still = still or (ka != kb if payload.get("multiset") else set(ka) != set(kb))
+    return still
 
 
 # =========================================================================================== C16
@@ -488,15 +583,7 @@ def c06(tier):
         keys = [_t(k) for k in v["keys"]]
         ks = set(keys)
         missing, extra = lo - ks, ks - up
-        dup = None
-        for k, n in Counter(keys).items():
-            try:
-                want = expected_multiplicity(d, k)
-            except Exception:
-                want = None
-            if want is not None and n != want and k in lo:
-                dup = (dict(k), n, want)
-                break
+        dup = multiplicity_mismatch(d, Counter(keys), lo)
         ok = not missing and not extra and not dup
         ck.oblig(f"C06.exhaust({r['name']})", "E", "passed" if ok else "failed", detail=None if ok else f"missing={len(missing)} extra={len(extra)} multiplicity={dup}")
         if not ok:
@@ -510,7 +597,7 @@ def c06(tier):
         g_ok = (d["block"]["kind"] == "cross" and all(c[0] == "Exclude" for c in d["block"]["constraints"])
                 and not any(model.is_derived(fm_[f]) and model._complex(fm_, fm_[f]) for f in d["block"]["design"]))
         if g_ok and m.get("total_rejected") == 0 and m.get("solution_count") is not None and not r["amb"] and "preamble" not in d["tags"]:
-            okc = m["solution_count"] == sum(expected_multiplicity(d, k) for k in lo)
+            okc = m["solution_count"] == sum(expected_multiplicity(d, k)[0] for k in lo)
             ck.oblig(f"C06.count({r['name']})", "E", "passed" if okc else "failed", detail=None if okc else f"solution_count {m['solution_count']} valid {len(lo)}")
             if not okc:
                 ck.violation("C06.count", f"{_cls(d, 'count')}:{r['name']}", f"design {r['name']}: RandomGen reports solution_count {m['solution_count']}, there are {len(lo)} valid sequences",
@@ -555,7 +642,8 @@ def c09(tier):
                     for k, n in Counter(map(_t, row["keys"])).items():
                         try:
                             cap = expected_multiplicity(d, k)
-                        except Exception:
+                            cap = None if cap[1] is None else max(cap)
+                        except model.Unsupported:
                             cap = None
                         if cap is not None and n > cap:
                             bad = f"the same sequence returned {n} times in one call (at most {cap} copies are distinct solutions): {dict(k)}"
@@ -871,7 +959,7 @@ def c24(tier):
 
 
 # =========================================================================================== C23
-def expand_weights(d):
+def expand_weights(d, only=None):
     """copy-expanded twin: every weighted level l (weight w) of a non-derived factor becomes w levels 'l#1'..'l#w' of weight 1;
     derivation tables of dependent factors are re-keyed so that every copy behaves as l.  -> (twin description, rename-back map)"""
     import copy
@@ -880,7 +968,7 @@ def expand_weights(d):
     back = {}
     copies = {}
     for F in t["factors"]:
-        if model.is_derived(F):
+        if model.is_derived(F) or (only is not None and F["name"] not in only):
             continue
         new = []
         for l, w in F["levels"]:
@@ -911,18 +999,20 @@ def expand_weights(d):
 
 
 def _twin_eval(arg):
-    d, twin, back = arg
+    d, twin, back = arg[:3]
+    ptwin, pback = arg[3:5] if len(arg) > 3 and arg[3] is not None else (None, None)
     out = {"name": d["name"]}
     names = SC.user_factors(d)
-    for tag, dd in (("weighted", d), ("twin", twin)):
+    for tag, dd in (("weighted", d), ("twin", twin)) + ((("ptwin", ptwin),) if ptwin is not None else ()):
         for strat in ("IterateSATGen", "RandomGen"):
             try:
                 block, _ = model.build(dd)
                 res = SC.runner.synth(block, 8000, strat)
                 keys = []
                 for e in res:
-                    if tag == "twin":
-                        e = {f: [back.get((f, v), v) for v in vals] for f, vals in e.items()}
+                    if tag in ("twin", "ptwin"):
+                        bk = back if tag == "twin" else pback
+                        e = {f: [bk.get((f, v), v) for v in vals] for f, vals in e.items()}
                     keys.append(SC.key_of_exp(e, names))
                 out[f"{tag}:{strat}"] = dict(n=len(res), keys=keys, T=block.trials_per_sample())
             except Exception as e:
@@ -978,10 +1068,19 @@ def c23(tier):
                 small.append(d)
         except model.Unsupported:
             small.append(d)
-    args = [(d,) + expand_weights(d) for d in small]
+    args = []
+    for d in small:
+        # factors in some but not every crossing: a second twin that expands only the factors that are not in every crossing
+        # (the property: "not in every crossing => behaves exactly like w separately named copies")
+        try:
+            _, free, partly = _weighted_split(d)
+        except model.Unsupported:
+            free, partly = [], []
+        pt = expand_weights(d, only=set(free) | set(partly)) if partly else (None, None)
+        args.append((d,) + expand_weights(d) + pt + (partly,))
     res = SC.runner.pmap(_twin_eval, args, jobs=14, timeout=60 if tier == "quick" else 300)
     from collections import Counter
-    for (d, twin, back), (st, r) in zip(args, res):
+    for (d, twin, back, ptwin, pback, partly), (st, r) in zip(args, res):
         if st != "ok":
             ck.oblig(f"C23.twin({d['name']})", "E", "undecided", detail=f"worker {st}")
             continue
@@ -1014,6 +1113,28 @@ def c23(tier):
             elif not everywhere and g is not None and not any(f in c["factors"] for f in weighted for c in g["crossings"]) and ka != kb:
                 bad = "multiplicities differ from the copy-expanded twin"
             ck.oblig(f"C23.twin({d['name']},{strat})", "E", "passed" if not bad else "failed", detail=bad)
+            if not bad and partly:
+                c_ = r.get(f"ptwin:{strat}", {})
+                if "exception" in c_ or not c_:
+                    ck.oblig(f"C23.twin.partly({d['name']},{strat})", "E", "undecided", detail=f"partial twin raised {c_.get('exception')} (C08)")
+                elif c_["n"] >= 8000:
+                    ck.oblig(f"C23.twin.partly({d['name']},{strat})", "E", "undecided", detail="not exhausted")
+                else:
+                    kc = Counter(map(_t, c_["keys"]))
+                    okp = ka == kc
+                    ck.oblig(f"C23.twin.partly({d['name']},{strat})", "E", "passed" if okp else "failed",
+                             detail=None if okp else f"{sum(ka.values())} solutions, twin with separately named copies {sum(kc.values())}")
+                    if not okp:
+                        # the recorded finding is exactly: same printed sequences, and the copies of the partly crossed factor(s) are
+                        # not distinct solutions (every count is the copy product of the factors that are in no crossing)
+                        exact = set(ka) == set(kc) and all(n == expected_multiplicity(d, k)[0] for k, n in ka.items())
+                        kind = "partly-crossed-copies-not-distinct" if exact else "twin-multiplicity"
+                        ex = next(k for k in kc if ka.get(k) != kc[k])
+                        ck.violation("C23.twin.partly", f"{kind}:{d['name']}:{strat}",
+                                     f"design {d['name']} ({strat}): weighted factor(s) {partly} are in some but not every crossing; {sum(ka.values())} solutions are returned, "
+                                     f"the twin with separately named copies has {sum(kc.values())}, e.g. {dict(ex)} {ka.get(ex, 0)}x vs {kc[ex]}x",
+                                     dict(replay_kind="pair", left=d, right=ptwin, rename_back=[list(k) + [v] for k, v in pback.items()], multiset=True),
+                                     tags=dict(kind=kind, strategy=strat, features=SC.feature_class(d) + ["weighted-factor-in-some-but-not-every-crossing"]))
             if bad:
                 ck.violation("C23.twin", f"{_cls(d, 'twin')}:{d['name']}:{strat}", f"design {d['name']} ({strat}): {bad}", dict(replay_kind="pair", left=d, right=twin, rename_back=[list(k) + [v] for k, v in back.items()]),
                              tags=dict(kind="twin", strategy=strat, features=SC.feature_class(d)))
